@@ -159,7 +159,7 @@ impl Property for C11 {
     }
     fn cases(&self, tier: Tier) -> usize {
         match tier {
-            Tier::Quick => 8_000,
+            Tier::Quick => 30_000,
             Tier::Thorough => 200_000,
         }
     }
